@@ -314,8 +314,63 @@ func funcArg(v ssa.Value) *ssa.Function {
 		return v
 	case *ssa.ChangeType:
 		return funcArg(v.X)
+	case *ssa.Call:
+		if f, _ := FactoryClosure(v); f != nil {
+			return f
+		}
 	}
 	return nil
+}
+
+// FactoryClosure: v is a call of a function of the program whose every return hands back a closure over one
+// and the same function literal ("func mover(dir string) filepath.WalkFunc { return func(...) {...} }"):
+// that function literal and the MakeClosure that creates it (nil, nil otherwise).
+func FactoryClosure(v ssa.Value) (*ssa.Function, *ssa.MakeClosure) {
+	call, ok := v.(*ssa.Call)
+	if !ok {
+		return nil, nil
+	}
+	fac := call.Call.StaticCallee()
+	if fac == nil || fac.Blocks == nil {
+		return nil, nil
+	}
+	var fn *ssa.Function
+	var mk *ssa.MakeClosure
+	for _, b := range fac.Blocks {
+		for _, in := range b.Instrs {
+			rt, ok := in.(*ssa.Return)
+			if !ok {
+				continue
+			}
+			if len(rt.Results) != 1 {
+				return nil, nil
+			}
+			r := rt.Results[0]
+			for {
+				if ct, ok := r.(*ssa.ChangeType); ok {
+					r = ct.X
+					continue
+				}
+				break
+			}
+			switch x := r.(type) {
+			case *ssa.MakeClosure:
+				f, _ := x.Fn.(*ssa.Function)
+				if f == nil || (fn != nil && fn != f) {
+					return nil, nil
+				}
+				fn, mk = f, x
+			case *ssa.Function:
+				if fn != nil && fn != x {
+					return nil, nil
+				}
+				fn = x
+			default:
+				return nil, nil
+			}
+		}
+	}
+	return fn, mk
 }
 
 func hasFuncTypedArg(c *ssa.CallCommon) bool {
